@@ -15,6 +15,7 @@ import (
 	"math"
 	"math/bits"
 	"os"
+	"runtime/pprof"
 	"sort"
 
 	imodel "github.com/lindb/lindb/index/model"
@@ -322,6 +323,12 @@ func main() {
 	devnull, _ := os.OpenFile(os.DevNull, os.O_WRONLY, 0)
 	os.Stdout = devnull // lindb's logger writes to stdout
 
+	if pf := os.Getenv("C20_PROF"); pf != "" { // developer aid: CPU profile of one worker
+		if fh, err := os.Create(pf); err == nil {
+			_ = pprof.StartCPUProfile(fh)
+			defer pprof.StopCPUProfile()
+		}
+	}
 	if f.Replay != "" {
 		var d caseDesc
 		vevid.LoadReplay(f.Replay, &d)
